@@ -345,16 +345,21 @@ func staleProbe(c *execdrv.Chain, P, X, V *node.Node) {
 	}
 	c.Hold = true
 	okP := c.Validate(P, p)
+	resP := ""
 	if okP {
-		c.Commit(P, p, false)
+		resP = c.Commit(P, p, false)
 	}
 	post := P.StateDigest()
 	o.Op(fmt.Sprintf("def %d %s %s %s %s", h, pre, p.ID, post, p.Obs), "def")
 	c.Release()
-	if !okP {
+	want := fmt.Sprintf("ok state=%s obs=%s", post, p.Obs)
+	if !okP || resP != want {
+		// the reference execution itself did not go through: nothing to compare the probes with
+		o.Count("probe:skipped-reference-failed")
+		o.Fail("C03:path-divergence:propose-propose+validate+commit-cached",
+			fmt.Sprintf("height %d: the proposer's own leader flow fails: validate ok=%v, commit %q", h, okP, resP), map[string]any{"case": o.CurCase(), "height": h})
 		return
 	}
-	want := fmt.Sprintf("ok state=%s obs=%s", post, p.Obs)
 	// A
 	c.Validate(X, p)
 	c.Propose(X, c.Mix.Mix(node.MixOpts{Height: h, Sends: 2}), "produce")
